@@ -140,7 +140,7 @@ pub fn reader_items_with_cell<R: Read>(
     max_bytes: Option<usize>,
     max_items: usize,
 ) -> (Vec<ReaderItem>, Vec<(usize, u8)>) {
-    let (input, cell) = buffered_input_from_reader_with_limit(reader, max_bytes);
+    let (input, cell, _tail) = buffered_input_from_reader_with_limit(reader, max_bytes);
     let mut parser = saphyr_parser::Parser::new(input);
     let mut items = Vec::new();
     let mut fired = Vec::new();
